@@ -392,7 +392,7 @@ def check(ctx, rep):
                     key=f"R01g|{mod.relpath}", nontrivial=False)
     for P in ctx.protocol_classes():
         h = prog.resolve_method(P, "handle")
-        if h is None or h.cls is not P:
+        if h is None or not ctx.owns(P, h):
             continue
         w = Walker(prog, ctx.resolver, inline=lambda fn, t, d: t.bound_cls is not None and fn.name in ("handle_input",), max_depth=2)
         problems = set()
